@@ -52,7 +52,36 @@ def byte_set(conds, param):
             else:
                 continue
             s = {x for x in s if f(x) == truth}
+            continue
+        # range membership spelled with the range types: (a..=b).contains(&x), (a..b).contains(&x), (a..).contains(&x)
+        if isinstance(t, tuple) and len(t) == 4 and t[0] == "call" and t[1].endswith("::contains") and len(t[2]) == 2 and t[2][1] == param:
+            truth = flow.lab_true(labs)
+            if not truth and not flow.lab_false(labs):
+                continue
+            r = t[2][0]
+            lo, hi = 0, 255
+            okr = False
+            if isinstance(r, tuple) and len(r) == 4 and r[0] == "agg":
+                d = dict(r[3])
+                nm = r[1].rsplit("::", 1)[-1]
+                cv = lambda k: d[k][1] if k in d and d[k][0] == "const" and isinstance(d[k][1], int) else None
+                if nm == "RangeInclusive" and cv("start") is not None and cv("end") is not None:
+                    lo, hi, okr = cv("start"), cv("end"), True
+                elif nm == "Range" and cv("start") is not None and cv("end") is not None:
+                    lo, hi, okr = cv("start"), cv("end") - 1, True
+                elif nm == "RangeFrom" and cv("start") is not None:
+                    lo, okr = cv("start"), True
+                elif nm == "RangeToInclusive" and cv("end") is not None:
+                    hi, okr = cv("end"), True
+            elif is_call_term(r, "RangeInclusive::new") and all(a[0] == "const" and isinstance(a[1], int) for a in r[2]):
+                lo, hi, okr = r[2][0][1], r[2][1][1], True
+            if okr:
+                s = {x for x in s if (lo <= x <= hi) == truth}
     return s
+
+
+def is_call_term(x, pat):
+    return isinstance(x, tuple) and len(x) == 4 and x[0] == "call" and isinstance(x[1], str) and names.is_(x[1], pat)
 
 
 def run(chk):
